@@ -51,11 +51,65 @@ def run_prop(args, prop, repo, reg, timeout_ms, known, seed):
     payload = [(j[0], j[1], args.repo, timeout_ms, kmap) + tuple(j[2:]) for j in jobs]
     payload += [("bounded", n, args.repo, timeout_ms, kmap) for n, f in bounded if args.tier == "thorough" or True]
     if args.jobs > 1 and len(payload) > 1:
-        with mp.Pool(min(args.jobs, len(payload))) as pool:
-            results = pool.map(M.run_unit, payload, chunksize=1)
+        hard_s = float(os.environ.get("PYVC_HARD_S", "300" if args.tier == "quick" else "1500"))
+        results = run_jobs(payload, args.jobs, hard_s)
     else:
         results = [M.run_unit(j) for j in payload]
     return summarize(args, prop, results, reg, known, kmap, seed, time.time() - t0, timeout_ms)
+
+
+def _child(jobs, conn):
+    from pyvc import main as M
+    out = []
+    for j in jobs:
+        out.append(M.run_unit(j))
+    try:
+        conn.send(out)
+    finally:
+        conn.close()
+
+
+def run_jobs(payload, njobs, hard_s):
+    """One forked process per chunk of jobs with a hard wall-clock limit: a solver call that ignores its timeout and
+    interrupts is killed and its jobs are reported UNDECIDED (never a violation, never a hang)."""
+    from multiprocessing.connection import wait
+    ctx = mp.get_context("fork")
+    csize = 1 if len(payload) <= 200 else max(1, len(payload) // (njobs * 8))
+    chunks = [list(range(k, min(k + csize, len(payload)))) for k in range(0, len(payload), csize)]
+    results = [None] * len(payload)
+    pending, running = list(chunks), {}
+    while pending or running:
+        while pending and len(running) < njobs:
+            ch = pending.pop(0)
+            rc, wc = ctx.Pipe(False)
+            pr = ctx.Process(target=_child, args=([payload[i] for i in ch], wc))
+            pr.start()
+            wc.close()
+            running[rc] = (pr, ch, time.time())
+        ready = wait(list(running), timeout=0.5)
+        now = time.time()
+        for rc in list(running):
+            pr, ch, t0 = running[rc]
+            if rc in ready:
+                try:
+                    out = rc.recv()
+                except (EOFError, OSError):
+                    out = [dict(kind=payload[i][0], name=payload[i][1], status="crash",
+                                message="worker died without a result", obligations=[]) for i in ch]
+                for i, r in zip(ch, out):
+                    results[i] = r
+                pr.join()
+                rc.close()
+                del running[rc]
+            elif now - t0 > hard_s * max(1, len(ch) // 20):
+                pr.kill()
+                pr.join()
+                rc.close()
+                for i in ch:
+                    results[i] = dict(kind=payload[i][0], name=payload[i][1], status="undecided", obligations=[],
+                                      message="hard time limit of %ds exceeded (solver ignored its timeout)" % hard_s)
+                del running[rc]
+    return results
 
 
 def summarize(args, prop, results, reg, known, kmap, seed, wall, timeout_ms):
@@ -70,6 +124,9 @@ def summarize(args, prop, results, reg, known, kmap, seed, wall, timeout_ms):
     for r in results:
         if r["status"] == "crash":
             crashed.append((r["name"], r["message"]))
+            continue
+        if r["status"] == "undecided":
+            undecided.append((r["name"], r["message"]))
             continue
         if r["kind"] == "bounded":
             b = r.get("bounded", {})
